@@ -221,16 +221,16 @@ rfbSendSecurityTypeList(rfbClientPtr cl, int primaryType)
     uint8_t buffer[MAX_SECURITY_TYPES+1];
 
 
-    /* Fill in the list of security types in the client structure. (NOTE: Not really in the client structure) */
-    switch (primaryType) {
-    case rfbSecTypeNone:
-	rfbUnregisterSecurityHandler(&VncSecurityHandlerVncAuth);
-        rfbRegisterSecurityHandler(&VncSecurityHandlerNone);
-        break;
-    case rfbSecTypeVncAuth:
-	rfbUnregisterSecurityHandler(&VncSecurityHandlerNone);
-        rfbRegisterSecurityHandler(&VncSecurityHandlerVncAuth);
-        break;
+    /*
+     * The built-in type that applies to this client comes first, then the
+     * types registered by the application.  The built-in handlers are not
+     * kept in the list of registered handlers: that list is shared by all
+     * screens and clients of the process, and a new connection must not
+     * change what other clients were offered (nor drop registered handlers).
+     */
+    if (primaryType != rfbSecTypeInvalid) {
+	buffer[size] = (uint8_t)primaryType;
+	size++;
     }
 
     for (handler = securityHandlers;
@@ -352,19 +352,13 @@ rfbProcessClientSecurityType(rfbClientPtr cl)
     }
 
     /*
-     * Make sure it was present in the list sent by the server.  The list of
-     * handlers is shared by all screens and clients of the process, and
-     * rfbSendSecurityTypeList() swaps the built-in handlers in it for every
-     * new connection, so by now it may hold the one that was offered to some
-     * other client.  Take the built-in handler that applies to this client
-     * and look only for the other (registered) handlers in the list.
+     * Make sure it was present in the list sent by the server: the built-in
+     * type that applies to this client, or one of the registered handlers.
      */
     handler = rfbBuiltinSecurityHandler(cl);
     if (chosenType != handler->type) {
 	for (handler = securityHandlers; handler; handler = handler->next) {
-	    if (handler != &VncSecurityHandlerNone &&
-		handler != &VncSecurityHandlerVncAuth &&
-		chosenType == handler->type)
+	    if (chosenType == handler->type)
 		break;
 	}
     }
